@@ -127,6 +127,16 @@ def r05_3(rep, M, rid, strict=True, T=None):
         rep.violation(rid, "post-processing of transformed positions", "the transformed positions are not wrapped into [0, 1)", M.where(GS))
         return
     E = wraps[0].args[0]
+    # a rigid motion moves every atom: no row-selective store into the array that is wrapped and installed
+    if isinstance(E, ast.Name):
+        part = [s2 for s2 in ast.walk(fn) if isinstance(s2, (ast.Assign, ast.AugAssign))
+                for t2 in (s2.targets if isinstance(s2, ast.Assign) else [s2.target])
+                if isinstance(t2, ast.Subscript) and norm(t2.value) == E.id and not slice_text(t2).replace(" ", "").startswith(":")]
+        if part:
+            rep.violation(rid, "application of the normalizer", f"`{norm(part[0])[:80]}` transforms only a selection of the atoms: a normalizer is a rigid motion of the "
+                          "whole crystal, moving one sublattice and not the other gives a structure that is not congruent with the standardised input",
+                          M.where(GS, part[0]))
+            return
     # follow plain names / column selections back to the expression that applies the matrix
     cols = False
     cur = E
@@ -288,6 +298,52 @@ def r05_5(rep, M, rid):
                               "cell without the coordinates (or vice versa) hands spglib another crystal, e.g. the enantiomorph", M.where(fq, el))
 
 
+def r05_5b(rep, M, rid):
+    """what comes back from spglib is turned into a system without changing convention: spglib lattices hold the basis vectors as
+    rows exactly like ase cells, so (std_lattice, std_positions, std_types) are used as they are"""
+    FIELDS = {"std_lattice": "cell", "std_positions": "scaled positions", "std_types": "numbers", "primitive_lattice": "cell"}
+    n = 0
+    for q, d in M.functions().items():
+        if M.parent.get(q) != SA:
+            continue
+        calls = M.calls_to(q, SA + "._spglib_description_to_system")
+        if not calls:
+            continue
+        fl = Flow(d)
+        for c in calls:
+            desc = c.args[0] if c.args else None
+            at = fl.node_of(c)
+            if isinstance(desc, ast.Name):
+                vals = [x[1] for dn in fl.rd[at].get(desc.id, ()) if dn != fl.cfg.entry for x in fl.def_value(dn, desc.id) if x[0] == "expr"]
+                desc = vals[0] if len(vals) == 1 else desc
+            if not (isinstance(desc, ast.Tuple) and len(desc.elts) == 3):
+                raise AnalysisError(f"{d.name}: description passed to _spglib_description_to_system is not a 3-tuple")
+            for el, want in zip(desc.elts, ("lattice", "positions", "types")):
+                sl = fl.slice(el, at)
+                attrs = [x.attr for e in sl["exprs"] for x in ast.walk(e) if isinstance(x, ast.Attribute) and x.attr in FIELDS]
+                keys = [x.slice.value for e in sl["exprs"] for x in ast.walk(e) if isinstance(x, ast.Subscript) and isinstance(x.slice, ast.Constant)
+                        and x.slice.value in FIELDS]
+                src = attrs + keys
+                changed = [norm(x) for e in sl["exprs"] for x in ast.walk(e)
+                           if (isinstance(x, ast.Attribute) and x.attr == "T") or isinstance(x, (ast.BinOp, ast.UnaryOp))
+                           or (isinstance(x, ast.Call) and (M.ext_name(q, x.func) or "") in ("numpy.transpose", "numpy.linalg.inv", "numpy.dot", "numpy.flip"))
+                           or (isinstance(x, ast.Call) and isinstance(x.func, ast.Attribute) and x.func.attr == "transpose")]
+                if not src:
+                    continue
+                n += 1
+                if len(set(src)) == 1 and want in src[0] and not changed:
+                    rep.ok(rid, f"{d.name}: spglib's {src[0]} is used as the {FIELDS[src[0]]} unchanged")
+                elif changed:
+                    rep.violation(rid, f"{d.name}: `{norm(el)}` <- {src}", f"spglib's {src[0]} is changed by `{changed[0]}` before it becomes the {FIELDS[src[0]]}: spglib "
+                                  "lattices hold the basis vectors as rows like ase cells, so the fractional positions are paired with another lattice (a transposed "
+                                  "lattice differs whenever the matrix is not symmetric: triclinic, monoclinic, trigonal, hexagonal) and the atoms are sheared",
+                                  M.where(q, c))
+                else:
+                    rep.violation(rid, f"{d.name}: `{norm(el)}` <- {src}", f"the {want} slot of the description is filled from {src}", M.where(q, c))
+    if n < 3:
+        raise AnalysisError(f"only {n} spglib dataset fields found flowing into _spglib_description_to_system")
+
+
 def r05_6(rep, M, rid):
     """wrapping may snap coordinates to the cell faces only within numerical noise"""
     fq = "matid.geometry.geometry.get_wrapped_positions"
@@ -331,6 +387,7 @@ def run(rep, ctx):
     rep.rule("R05.5", "spglib is given the analysed structure unmodified (cell, scaled positions and numbers of one and the same object)")
     with rep.guard("R05.5"):
         r05_5(rep, M, "R05.5")
+        r05_5b(rep, M, "R05.5")
     rep.rule("R05.6", "re-wrapping of the transformed positions snaps coordinates only within numerical noise")
     with rep.guard("R05.6"):
         r05_6(rep, M, "R05.6")
